@@ -117,7 +117,7 @@ def main(argv):
         if r.get('bounded'):
             bounded.append(r['bounded'])
             if r['bounded'].get('result') == 'violation':
-                violations.append((r['bounded']['id'], r['bounded'].get('replay'), False))
+                violations.append((r['bounded']['id'], r['bounded'].get('replay'), bool(r['bounded'].get('confirmed'))))
             continue
         is_bounded = getattr(u, 'bounded', None)
         if is_bounded:
